@@ -63,11 +63,13 @@ def stable_ob_id(o):
     return '%s#%s "%s"' % (o['fn'], o['kind'].split('[')[0] + ('[' + o['kind'].split('[')[1] if '[' in o['kind'] else ''), o['text'])
 
 
-def replay_obligation(o, budget):
-    if not o.get('model'):
+def replay_obligation(o, budget, search=False):
+    """replay the solver's counter-model on the real code; with search=True (solver said `unknown`, there is
+    no model) only the contract-directed bounded search of the real function is made"""
+    if not o.get('model') and not search:
         return None
     try:
-        p = subprocess.run([VENV_PY, '-m', 'monitor.replay', '--key', o['fn'], '--model', json.dumps(o['model'], default=repr),
+        p = subprocess.run([VENV_PY, '-m', 'monitor.replay', '--key', o['fn'], '--model', json.dumps(o.get('model') or {}, default=repr),
                             '--budget', str(budget)], cwd=HERE, capture_output=True, text=True, timeout=budget + 60,
                            env=dict(os.environ, PYVC_REPO=REPO))
         line = p.stdout.strip().splitlines()[-1] if p.stdout.strip() else ''
@@ -192,9 +194,33 @@ def main():
             crashes.append('%s: zero obligations generated' % r['key'])
         # failed obligations: group by stable id, replay the first of each group
         seen = set()
+        unknown = [o for o in r['obligations'] if o['verdict'] == 'unknown']
+        if unknown and not any(o['verdict'] == 'sat' for o in r['obligations']):
+            # The solver neither proved nor refuted these obligations, so there is no counter-model.  The real
+            # function (for a closure: the function that defines it) is searched under the same contract at
+            # run time; only an input that breaks it on the real code turns `undecided` into a violation.
+            o = unknown[0]
+            sid = stable_ob_id(o)
+            kf = [f for f in known['findings'] if f.get('status') == 'known' and f.get('property') == pid
+                  and f.get('layer') == 'deductive' and f.get('obligation') == sid]
+            rp = None if kf else replay_obligation(o, budget, search=True)
+            if rp and rp.get('confirmed'):
+                os.makedirs(replay_dir, exist_ok=True)
+                path = os.path.join(replay_dir, 'ob-%s.json' % hashlib.sha1(sid.encode()).hexdigest()[:10])
+                json.dump({'property': pid, 'layer': 'deductive', 'obligation': o['name'], 'obligation_id': sid,
+                           'function': o['fn'], 'kind': o['kind'], 'clause': o['text'], 'path_trace': o['trace'],
+                           'solver': {'verdict': 'unknown', 'backend': o['backend'],
+                                      'output': 'no model: every back end returned unknown on this obligation'},
+                           'undecided_obligations': [u['name'] for u in unknown],
+                           'replay': rp}, open(path, 'w'), indent=1, default=repr)
+                violations.append('VIOLATION property=%s replay=%s obligation=%s' % (pid, path, json.dumps(sid)))
+                unknown = []
+            elif kf:
+                known_lines.append('KNOWN-FINDING: property=%s %s' % (pid, kf[0]['what']))
         for o in r['obligations']:
             if o['verdict'] == 'unknown':
-                undecided.append('%s reason=solver-unknown' % o['name'])
+                if unknown:
+                    undecided.append('%s reason=solver-unknown' % o['name'])
                 continue
             if o['verdict'] != 'sat':
                 continue
